@@ -79,6 +79,11 @@ CHECKS = {
         text="Scoped / IdleIsNone / Isolated for all call trees of depth <= 3 on two threads; 2- and 3-thread schedules of 24 actions replayed with the public-API observation (stub vs full, contexts vs bare, guard error) compared after every action on 3.9-3.12",
         note="depth <= 3; observations only through extract_child / fill_context; hooks that raise are represented by extract_outermost ending by exception through push()'s finally",
         ref="3.3, 4 C13"),
+    "C15": dict(
+        technique="TLA+ spec of greenlet forests (Greenlets.tla: parent assignments, start/call/return/finish, observers), TLC exhaustive under VIEW + simulated behaviours replayed with command-interpreting greenlet bodies; greenback bridges Bridge(d) replayed under Trio",
+        text="for every reachable forest state extract(target) is called by the observer the behaviour names (main, the target itself, a child, an unrelated greenlet) and must return the target's own segment (entry .. switch point), nothing for unstarted/dead; a greenlet running in another thread must give an error; greenback alternation depth 0..3 from outside and inside the task",
+        note="3.12 only; F8 (observer descends from the target) is a known finding matched by the forest relation; PyPy-specific code paths unreachable",
+        ref="3.7, 4 C15"),
     "C16": dict(
         technique="TLC on ExtractIter with generator-type wrappers (OriginContractX, OutermostIsFirst); origin contract evaluated on every real chain (suspended and running) via API and via the trace spec's verdict; extract_outermost vs extract on given tables",
         text="origin contract and extract_outermost == first frame hold for all tables in the bound on the model (with the F5 excuse named), for every chain of the C03 space on 3.9-3.12 including running carriers, and for thousands of synthetic table sets",
